@@ -68,11 +68,19 @@ def obligations(ex, lem):
         others = [(p, pt) for p, pt in lem.params if p != lem.induct and p in getattr(lem, 'generalize', [])]
         b2 = dict(consts)
         b2.update(dict((p, SV(pt, BVar('ih_%s' % p, sort_of(pt)))) for p, pt in others))
-        b2[lem.induct] = SV(n.pt, Sub(n.t, IntC(1)))
-        r2, e2 = _instance(ex, lem, b2)
-        ih = Implies(r2, And(*[e for _, e in e2]))
-        if others:
-            ih = ForAll([b2[p].t for p, _ in others], ih)
+        if getattr(lem, 'strong', False):
+            # strong induction: the statement at every 0 <= k < n
+            kv = BVar('ih_k', INT)
+            b2[lem.induct] = SV(n.pt, kv)
+            r2, e2 = _instance(ex, lem, b2)
+            ih = Implies(And(Ge(kv, IntC(0)), smt.Lt(kv, n.t)), Implies(r2, And(*[e for _, e in e2])))
+            ih = ForAll([kv] + [b2[p].t for p, _ in others], ih)
+        else:
+            b2[lem.induct] = SV(n.pt, Sub(n.t, IntC(1)))
+            r2, e2 = _instance(ex, lem, b2)
+            ih = Implies(r2, And(*[e for _, e in e2]))
+            if others:
+                ih = ForAll([b2[p].t for p, _ in others], ih)
         pc.append(ih)
         # well-foundedness: the precondition bounds the induction variable from below
         out.append(Obligation('LEMMA.%s.wellfounded' % lem.name, 'lemma', [req], Ge(n.t, IntC(0)), 'lemma:' + lem.name, lem.lineno, 1,
